@@ -8,6 +8,7 @@ import (
 	"os"
 	"reflect"
 	"regexp"
+	"runtime"
 	"sort"
 	"strconv"
 	"strings"
@@ -324,6 +325,13 @@ func searchMain(t *testing.T, h Harness) {
 		if fplog != nil {
 			cb, _ := json.Marshal(c)
 			fmt.Fprintf(fplog, "%d %016x case=%016x steps=%d\n", execs, res.Fingerprint, fnvHash(cb), res.Steps)
+			if f, err := os.OpenFile(os.Getenv("VERIF_FPLOG")+".foreign", os.O_APPEND|os.O_CREATE|os.O_WRONLY, 0o644); err == nil {
+				// scheduler events of goroutines outside the bubble seen during runs so far
+				// (created, made runnable, preemptions of bubble goroutines): wall-clock
+				// dependent, therefore kept out of the compared log
+				fmt.Fprintf(f, "%d %v\n", execs, runtime.VerifForeign())
+				f.Close()
+			}
 		}
 		if trace && h.Sample != nil && len(out.Samples) < 2 {
 			lg := res.Log
